@@ -116,11 +116,16 @@ func (sm *NestedSyncMap) Data() map[string]any {
 	return copyTree(sm.data)
 }
 
+// Get returns the value stored at key. A nested map is returned as a snapshot
+// (see Data), never as the live internal map.
 func (sm *NestedSyncMap) Get(key string) any {
 	sm.mutex.Lock()
 	defer sm.mutex.Unlock()
 
 	data, key := sm.lookup(key)
+	if nested, ok := data[key].(map[string]any); ok {
+		return copyTree(nested)
+	}
 	return data[key]
 }
 
